@@ -198,7 +198,7 @@ where
         }
         let ec = clock_arr(e.field("clock"), d.n, &mut z);
         let empty = ec.as_array().unwrap().iter().all(|x| x.as_u64() == Some(0));
-        entries[ki - 1] = json!([{"clock": if empty { json!("EMPTY-ENTRY-CLOCK") } else { ec }, "val": V::proj_tree(e.field("val"), d)}]);
+        entries[ki - 1] = json!([{"clock": if empty { json!(vec![-1i64; d.n]) } else { ec }, "val": V::proj_tree(e.field("val"), d)}]);
     }
     let mut deferred: Vec<Value> = t
         .field("deferred")
